@@ -1,9 +1,10 @@
 (* C11 model, part 2: what INSERT / UPDATE / DELETE / close+reopen / SELECT do to one table
    `t (k BIGINT [PRIMARY KEY], c <TYPE>)` as far as the stored value of column c is concerned.
    Transcribed from
-     src/database/dml/insert.rs   (row id from the per-Database counter next_row_id, which starts at 1 at
-                                   every open; TOAST of Text/Blob values above the threshold, the pointer
-                                   stored as a Blob; then the row insert, which fails on an existing row key)
+     src/database/dml/insert.rs   (row id from the per-Database counter next_row_id, which Database::open sets
+                                   behind the largest stored row key; TOAST of Text/Blob values above the
+                                   threshold, the pointer stored as a Blob; then the row insert, which fails
+                                   on an existing row key)
      src/database/batch.rs        (insert_cached: a re-executed prepared INSERT stores every value inline)
      src/database/dml/update.rs   (old TOAST chunks deleted first; new chunks written under the row id
                                    "primary-key value, or 0 when there is no integer primary key";
@@ -199,8 +200,11 @@ Definition step_query (ty : colty) (st : state) : state * sobs :=
       else (st, SQueryErr)
   end.
 
+(* Database::open (restore_next_row_id, /repo 60cb117): the row counter continues after the largest row key
+   stored in the table B-tree - live rows and the tombstones of deleted ones *)
+Definition max_rid (st : state) : Z := fold_left Z.max (map r_rid (rows st) ++ gone st) 0.
 Definition step_reopen (st : state) : state * sobs :=
-  (mkst 1 (rows st) (toast st) false false (dead st) (lost st) (gone st), SReopened true).
+  (mkst (Z.max 1 (max_rid st + 1)) (rows st) (toast st) false false (dead st) (lost st) (gone st), SReopened true).
 
 Definition step (ty : colty) (pk : bool) (st : state) (o : op) : state * sobs :=
   if dead st then (st, SNotRun) else
